@@ -382,6 +382,15 @@ class Inotify:
 
                 event_list.append(inotify_event)
 
+                if self.is_recursive and inotify_event.is_directory and inotify_event.is_moved_to:
+                    # A directory arrived under this name. It may come from outside the tree,
+                    # may have been renamed before its own creation event was processed, may
+                    # replace a watched directory, or may contain directories created since:
+                    # (re-)watch the tree under its new name. Its contents are announced by
+                    # the emitter.
+                    with contextlib.suppress(OSError):
+                        self._add_dir_watch(src_path, self._event_mask, recursive=True)
+
                 if self.is_recursive and inotify_event.is_directory and inotify_event.is_create:
                     # TODO: When a directory from another part of the
                     # filesystem is moved into a watched directory, this
